@@ -36,6 +36,11 @@ pub fn cases(args: &[String]) {
         }
         case_begin(index);
         index += 1;
+        if line == "hang" {
+            // a case the watchdog cut short in an earlier run of this file (see gen/common.py)
+            writeln!(out, "hang").unwrap();
+            continue;
+        }
         let (cmd, rest) = line.split_once(' ').unwrap();
         let sx = parse_all(rest);
         let r = match cmd {
